@@ -164,3 +164,70 @@ Theorem C15_tree_builder_error_count_depends_on_splitting :
   XTreeModel.terrs (XTreeModel.run [XTreeModel.TChars [120]%N; XTreeModel.TChars [121]%N]) = 2.
 Proof. exact XSplit.errs_differ. Qed.
 Print Assumptions C15_tree_builder_error_count_depends_on_splitting.
+
+(* ---------------------------------------------------------------------------------------------------------------
+   T2 for exact_errors = false (TokIR/BulkSim.v - one theory for both flavours -, Inst/InstBulk.v): XmlTokenizer's DEFAULT
+   mode against the reference semantics.  The interpreter over the CHUNKED queue with bulk reads (Data and the three
+   attribute-value states take a run up to the end of the first buffer; no current_char update and no bad-character
+   errors on the fast path) and the REFERENCE interpreter (flat queue, one character at a time, exact_errors = true), for
+   every list of chunks, sink script, injected text, start machine with a well-formed queue, fuel and value of the
+   (unused) SIMD sets: if the default-mode run ends regularly (no fuel exhaustion in any feed call, in end() or in its
+   EOF loop), the reference run with any fuel from some bound on reports the same results, leaves the same unread input,
+   has consumed the same number of characters, ends in the same configuration up to current_char, and has delivered
+   the same tokens up to [obs]: TError entries dropped, every maximal group of adjacent TChars entries merged into ONE
+   entry carrying the annotation of the group's last member, every other token kept with its annotation.  The two
+   decidable table conditions are decided on the regenerated xml table (xml_step_ok_all, xml_eof_lockstep_all); none
+   fails.  This replaces the tested leg "chunked-queue interpreter = reference up to merging of character tokens". *)
+From HV Require Import TokIR.BulkSim Inst.InstBulk.
+
+Theorem C15_default_mode_against_reference :
+  forall simd ent c1 sk fuel inject chunks (m : mach xstate queue) log,
+  wfq (mq m) ->
+  let rf := drive_chunked xml_flavour false xml_table simd ent c1 sk fuel inject chunks m log in
+  regular (snd rf) ->
+  exists k, forall j,
+    let rs := drive_flat xml_flavour true xml_table simd ent c1 sk (k + j) inject chunks
+                (mkmach (mc m) (qflat (mq m)) (mout m) (mcons m)) log in
+    snd rs = snd rf /\ obs (mout (fst rs)) = obs (mout (fst rf)) /\ ceq (mc (fst rs)) (mc (fst rf)) /\
+    mq (fst rs) = qflat (mq (fst rf)) /\ mcons (fst rs) = mcons (fst rf).
+Proof. exact xml_bulk_chunked_reference. Qed.
+Print Assumptions C15_default_mode_against_reference.
+
+Theorem C15_default_mode_is_reference_up_to_obs :
+  forall simd ent c1 sk inject s0 last input fuel,
+  let fast := drive_chunked xml_flavour false xml_table simd ent c1 sk fuel inject [input]
+                (mkmach (init_cfg s0 last false) [] [] 0%N) [] in
+  regular (snd fast) ->
+  exists fuel0, forall fuel', (fuel0 <= fuel')%nat ->
+    let ref := drive_flat xml_flavour true xml_table simd ent c1 sk fuel' inject [input]
+                 (mkmach (init_cfg s0 last false) [] [] 0%N) [] in
+    obs (mout (fst fast)) = obs (mout (fst ref)) /\ snd fast = snd ref.
+Proof. exact xml_default_mode_is_reference_up_to_obs. Qed.
+Print Assumptions C15_default_mode_is_reference_up_to_obs.
+
+(* composed with C15_driver_chunking_independent: in default mode the observable token stream and the result of end()
+   do not depend on the chunking (J: the invariant of TokIR/ChunkInv.v, true of every initial machine) *)
+Theorem C15_default_mode_chunking_independent_obs :
+  forall simd ent c1 sk fuel1 fuel2 inj cs1 cs2 (m : mach xstate queue),
+  wfq (mq m) -> J xml_table (mkmach (mc m) (qflat (mq m)) (mout m) (mcons m)) -> discard_bom (mc m) = false ->
+  all_nonempty cs1 -> all_nonempty cs2 -> cs1 <> [] -> cs2 <> [] -> concat cs1 = concat cs2 ->
+  let f1 := drive_chunked xml_flavour false xml_table simd ent c1 sk fuel1 inj cs1 m [] in
+  let f2 := drive_chunked xml_flavour false xml_table simd ent c1 sk fuel2 inj cs2 m [] in
+  regular (snd f1) -> regular (snd f2) -> all_done (tl (snd f1)) -> all_done (tl (snd f2)) ->
+  obs (mout (fst f1)) = obs (mout (fst f2)) /\ hd SSuspend (snd f1) = hd SSuspend (snd f2).
+Proof. exact xml_default_mode_chunking_independent_obs. Qed.
+Print Assumptions C15_default_mode_chunking_independent_obs.
+
+Theorem C15_bulk_table_conditions :
+  (forall guard stop nl s, step_ok xml_flavour guard stop nl xstate_beq (xml_step s) = true) /\
+  (forall s, ok_body false false (xml_eof s) = true).
+Proof. split; [exact xml_step_ok_all|exact xml_eof_lockstep_all]. Qed.
+Print Assumptions C15_bulk_table_conditions.
+
+(* non-vacuity (a test, by computation): the raw token lists of the two runs differ (8 entries against 13), the observable
+   ones agree (5) *)
+Example C15_default_mode_example :
+  regular_b (snd xex_fast) = true /\ snd xex_fast = snd xex_ref /\ obs (mout (fst xex_fast)) = obs (mout (fst xex_ref)) /\
+  (length (mout (fst xex_fast)), length (mout (fst xex_ref)), length (obs (mout (fst xex_ref)))) = (8, 13, 5)%nat.
+Proof. destruct xex_bulk_obs as (A & B & C & D & _). exact (conj A (conj B (conj C D))). Qed.
+Print Assumptions C15_default_mode_example.
